@@ -49,6 +49,10 @@ class RoundedArith (α : Type) [LT α] [LE α] [Add α] [Sub α] [Tm α] : Prop 
   /-- sign of a rounded difference -/
   sub_nonneg : ∀ {a b : α}, a ≤ b → Tm.zero ≤ b - a
   sub_nonpos : ∀ {a b : α}, a ≤ b → a - b ≤ Tm.zero
+  /-- the difference of two distinct numbers is not zero (gradual underflow: IEEE-754 with subnormals) -/
+  sub_pos : ∀ {a b : α}, a < b → Tm.zero < b - a
+  /-- rounded addition is commutative (stated with `≤`; use it in both directions) -/
+  add_comm_le : ∀ a b : α, a + b ≤ b + a
 
 /-! ## non-vacuity 1: exact integer arithmetic -/
 
@@ -69,6 +73,8 @@ instance : RoundedArith Int where
   add_le_of_nonpos := by intro x d h; have h' : d ≤ (0 : Int) := h; omega
   sub_nonneg := by intro a b h; show (0 : Int) ≤ b - a; omega
   sub_nonpos := by intro a b h; show a - b ≤ (0 : Int); omega
+  sub_pos := by intro a b h; show (0 : Int) < b - a; omega
+  add_comm_le := by intros; omega
 
 /-! ## non-vacuity 2: a toy floating-point format in which addition really rounds
 
@@ -187,6 +193,15 @@ instance : RoundedArith Toy where
     rw [Toy.le_def, Toy.zero_val, Toy.sub_val]
     have := rnd_mono (show a.val - b.val ≤ (0 : Int) by omega)
     rwa [rnd_zero] at this
+  sub_pos := by
+    intro a b h
+    rw [Toy.lt_def] at h
+    rw [Toy.lt_def, Toy.zero_val, Toy.sub_val]
+    have := rnd_mono (show (1 : Int) ≤ b.val - a.val by omega)
+    rw [show rnd 1 = 1 by decide] at this
+    omega
+  add_comm_le a b := by
+    rw [Toy.le_def, Toy.add_val, Toy.add_val, Int.add_comm]; exact Int.le_refl _
 
 /-- the laws are not exact-only: in the toy format strict monotonicity of addition FAILS
 (`1 < 2` but `6 + 1 = 8 = 6 + 2`), although every law of `RoundedArith` holds -/
@@ -1150,6 +1165,307 @@ theorem no_overlap_from_rounding_points (ps : List (Pt α)) (h : SortedT ps) :
 
 end Generic
 
+/-! ## (f) morph: `morphGo` (new start = previous NEW end + ORIGINAL gap, new end = new start + duration) -/
+
+section Generic2
+variable {α : Type} [LT α] [LE α] [DecidableLT α] [DecidableLE α] [BEq α] [Add α] [Sub α] [Tm α] [RoundedArith α]
+
+open RoundedArith
+
+/-- where the next new interval starts -/
+def newStart (prev : Option (α × α)) (src : Iv α) : α :=
+  match prev with
+  | none => src.s
+  | some (lastSrcEnd, lastNewEnd) => lastNewEnd + (src.s - lastSrcEnd)
+
+/-- the duration the new interval gets -/
+def morphDur (sel : String → Bool) (src tgt : Iv α) : α :=
+  if sel src.l then tgt.e - tgt.s else src.e - src.s
+
+theorem morphGo_cons (sel : String → Bool) (prev : Option (α × α)) (src tgt : Iv α) (ss ts : List (Iv α)) :
+    morphGo sel prev (src :: ss) (tgt :: ts) =
+      ⟨newStart prev src, newStart prev src + morphDur sel src tgt, src.l⟩ ::
+        morphGo sel (some (src.e, newStart prev src + morphDur sel src tgt)) ss ts := by
+  rcases prev with _ | ⟨a, b⟩ <;> rfl
+
+theorem morphGo_nil_left (sel : String → Bool) (prev : Option (α × α)) (ts : List (Iv α)) :
+    morphGo sel prev [] ts = [] := by
+  unfold morphGo; rfl
+
+theorem morphGo_nil_right (sel : String → Bool) (prev : Option (α × α)) (ss : List (Iv α)) :
+    morphGo sel prev ss [] = [] := by
+  cases ss <;> (unfold morphGo; rfl)
+
+theorem morphDur_nonneg (sel : String → Bool) (src tgt : Iv α) (h1 : src.s ≤ src.e) (h2 : tgt.s ≤ tgt.e) :
+    Tm.zero ≤ morphDur sel src tgt := by
+  unfold morphDur; split
+  · exact sub_nonneg h2
+  · exact sub_nonneg h1
+
+theorem morphDur_pos (sel : String → Bool) (src tgt : Iv α) (h1 : src.s < src.e) (h2 : tgt.s < tgt.e) :
+    Tm.zero < morphDur sel src tgt := by
+  unfold morphDur; split
+  · exact sub_pos h2
+  · exact sub_pos h1
+
+/-- the loop of `morph`: every new interval ends no earlier than it starts and starts no earlier than the previous
+new interval ended — whatever the rounding -/
+theorem morphGo_weakWF_aux (sel : String → Bool) (ss : List (Iv α)) :
+    ∀ (prev : Option (α × α)) (ts : List (Iv α)), WeakWF ss → (∀ tgt ∈ ts, tgt.s ≤ tgt.e) →
+      (∀ p, prev = some p → ∀ src ∈ ss, p.1 ≤ src.s) →
+      WeakWF (morphGo sel prev ss ts) ∧
+      ∀ o ∈ morphGo sel prev ss ts, ∀ p, prev = some p → p.2 ≤ o.s := by
+  induction ss with
+  | nil => intro prev ts _ _ _; rw [morphGo_nil_left]; exact ⟨WeakWF.nil, by simp⟩
+  | cons src ss ih =>
+    intro prev ts hs ht hp
+    cases ts with
+    | nil => rw [morphGo_nil_right]; exact ⟨WeakWF.nil, by simp⟩
+    | cons tgt ts =>
+      rw [morphGo_cons]
+      obtain ⟨h1, h2, h3⟩ := weakWF_cons.1 hs
+      have hd := morphDur_nonneg sel src tgt h1 (ht tgt (by simp))
+      have hse : newStart prev src ≤ newStart prev src + morphDur sel src tgt := le_add_of_nonneg _ hd
+      obtain ⟨ihw, ihb⟩ := ih (some (src.e, newStart prev src + morphDur sel src tgt)) ts h3
+        (fun x hx => ht x (List.mem_cons_of_mem _ hx))
+        (fun p hp' x hx => by cases hp'; exact h2 x hx)
+      have hns : ∀ p, prev = some p → p.2 ≤ newStart prev src := by
+        intro p hp'
+        subst hp'
+        obtain ⟨p1, p2⟩ := p
+        exact le_add_of_nonneg _ (sub_nonneg (hp (p1, p2) rfl src (by simp)))
+      refine ⟨weakWF_cons.2 ⟨hse, fun y hy => ihb y hy _ rfl, ihw⟩, ?_⟩
+      intro o ho p hp'
+      rcases List.mem_cons.1 ho with rfl | ho
+      · exact hns p hp'
+      · exact le_trans (hns p hp') (le_trans hse (ihb o ho _ rfl))
+
+/-- **(f)** the list `morph` hands to the constructor: no overlap, no reversed interval -/
+theorem morph_weakWF (sel : String → Bool) (ss ts : List (Iv α)) (hs : WeakWF ss) (ht : ∀ tgt ∈ ts, tgt.s ≤ tgt.e) :
+    WeakWF (morphGo sel none ss ts) :=
+  (morphGo_weakWF_aux sel ss none ts hs ht (fun p hp => by cases hp)).1
+
+/-- every new interval is `⟨x, x + dur⟩` for the duration of a (source, target) pair -/
+theorem morphGo_mem (sel : String → Bool) (ss : List (Iv α)) :
+    ∀ (prev : Option (α × α)) (ts : List (Iv α)), ∀ o ∈ morphGo sel prev ss ts,
+      ∃ src ∈ ss, ∃ tgt ∈ ts, o.e = o.s + morphDur sel src tgt ∧ o.l = src.l := by
+  induction ss with
+  | nil => intro prev ts o ho; rw [morphGo_nil_left] at ho; cases ho
+  | cons src ss ih =>
+    intro prev ts o ho
+    cases ts with
+    | nil => rw [morphGo_nil_right] at ho; cases ho
+    | cons tgt ts =>
+      rw [morphGo_cons] at ho
+      rcases List.mem_cons.1 ho with rfl | ho
+      · exact ⟨src, by simp, tgt, by simp, rfl, rfl⟩
+      · obtain ⟨a, ha, b, hb, h⟩ := ih _ ts o ho
+        exact ⟨a, List.mem_cons_of_mem _ ha, b, List.mem_cons_of_mem _ hb, h⟩
+
+/-- **collapse in morph**: a new interval of zero length arises only by ABSORPTION — its duration is strictly positive
+(source and target intervals have positive length, and the difference of distinct numbers is not zero) but adding it
+to the new start does not move the start (`x + dur ≤ x`) -/
+theorem morph_collapse (sel : String → Bool) (prev : Option (α × α)) (ss ts : List (Iv α))
+    (hs : StrictIn ss) (ht : StrictIn ts) (o : Iv α) (ho : o ∈ morphGo sel prev ss ts) (hc : ¬ o.s < o.e) :
+    ∃ src ∈ ss, ∃ tgt ∈ ts, Tm.zero < morphDur sel src tgt ∧ o.e = o.s + morphDur sel src tgt ∧
+      o.s + morphDur sel src tgt ≤ o.s := by
+  obtain ⟨src, h1, tgt, h2, h3, _⟩ := morphGo_mem sel ss prev ts o ho
+  refine ⟨src, h1, tgt, h2, morphDur_pos sel src tgt (hs src h1) (ht tgt h2), h3, ?_⟩
+  rw [← h3]; exact not_lt.1 hc
+
+theorem morph_refuses_iff (sel : String → Bool) (t u : ITier α) (hl : t.es.length = u.es.length) (hne : t.es ≠ [])
+    (ht : WeakWF t.es) (hu : ∀ tgt ∈ u.es, tgt.s ≤ tgt.e) :
+    (t.morph u sel = .error .TextgridStateError ↔ ∃ o ∈ morphGo sel none t.es u.es, ¬ o.s < o.e) ∧
+    ((∃ t', t.morph u sel = .ok t') ↔ StrictIn (morphGo sel none t.es u.es)) := by
+  have hw := morph_weakWF sel t.es u.es ht hu
+  obtain ⟨oe, hoe⟩ : ∃ oe, t.es.getLast? = some oe := ⟨_, List.getLast?_eq_some_getLast hne⟩
+  have hne' : morphGo sel none t.es u.es ≠ [] := by
+    cases h1 : t.es with
+    | nil => exact absurd h1 hne
+    | cons a as =>
+      cases h2 : u.es with
+      | nil => rw [h1, h2] at hl; simp at hl
+      | cons b bs => rw [morphGo_cons]; simp
+  obtain ⟨ne, hne2⟩ : ∃ ne, (morphGo sel none t.es u.es).getLast? = some ne :=
+    ⟨_, List.getLast?_eq_some_getLast hne'⟩
+  have hemp : (t.es.isEmpty && u.es.isEmpty) = false := by
+    cases h1 : t.es with
+    | nil => exact absurd h1 hne
+    | cons _ _ => rfl
+  unfold ITier.morph
+  simp only [hemp, Bool.false_eq_true, if_false, ne_eq, hl, not_true_eq_false, hne2, hoe]
+  exact mkITier_refuses_iff t.name _ _ _ hw
+
+/-- **no overlap from rounding — morph**.  For ANY arithmetic satisfying the laws, any source tier without overlap whose
+entries have positive length and any target tier of the same length with entries of positive length: the re-timed
+list has no overlap and no reversed interval; the call succeeds unless some strictly positive duration was absorbed
+by the new start it was added to (`x + dur ≤ x`) — then `TextgridStateError`. -/
+theorem no_overlap_from_rounding_morph (sel : String → Bool) (t u : ITier α) (hl : t.es.length = u.es.length)
+    (hne : t.es ≠ []) (ht : WeakWF t.es) (hts : StrictIn t.es) (hus : StrictIn u.es) :
+    WeakWF (morphGo sel none t.es u.es) ∧
+    ((∃ t', t.morph u sel = .ok t') ∨
+     (t.morph u sel = .error .TextgridStateError ∧
+      ∃ o ∈ morphGo sel none t.es u.es, ∃ src ∈ t.es, ∃ tgt ∈ u.es,
+        Tm.zero < morphDur sel src tgt ∧ o.s + morphDur sel src tgt ≤ o.s)) := by
+  have hu : ∀ tgt ∈ u.es, tgt.s ≤ tgt.e := fun x hx => le_of_lt (hus x hx)
+  refine ⟨morph_weakWF sel t.es u.es ht hu, ?_⟩
+  have hr := morph_refuses_iff sel t u hl hne ht hu
+  by_cases hst : StrictIn (morphGo sel none t.es u.es)
+  · exact .inl (hr.2.2 hst)
+  · right
+    have hc : ∃ o ∈ morphGo sel none t.es u.es, ¬ o.s < o.e :=
+      Classical.byContradiction fun hn =>
+        hst (fun x hx => Classical.byContradiction fun h' => hn ⟨x, hx, h'⟩)
+    obtain ⟨o, ho, hoc⟩ := hc
+    obtain ⟨src, h1, tgt, h2, h3, _, h5⟩ := morph_collapse sel none t.es u.es hts hus o ho hoc
+    exact ⟨hr.1.2 ⟨o, ho, hoc⟩, o, ho, src, h1, tgt, h2, h3, h5⟩
+
+/-! ## (g) appendTier / appendTextgrid: shift of the appended entries by the end `h` of the first tier, concatenation -/
+
+/-- a shifted (and possibly clipped) entry of the appended tier starts at or after `h` -/
+theorem shiftClip_start_ge {h lo hi : α} {iv out : Iv α} (h0 : Tm.zero ≤ iv.s)
+    (ho : (shiftClip h lo hi iv).2 = some out) : h ≤ out.s := by
+  have hh : h ≤ h + iv.s := le_add_of_nonneg h h0
+  obtain ⟨_, ⟨h1, rfl⟩ | ⟨_, rfl⟩⟩ := shiftClip_cases ho
+  · exact le_of_lt (lt_of_le_of_lt hh h1)
+  · exact hh
+
+/-- **(g)** entries `A` that end by `h`, followed by the entries `B` (not starting before zero) shifted by `h`: no
+overlap, no reversed interval.  This is the list of `IntervalTier.appendTier` (`h` = the first tier's end) and of the
+concatenation `catTier` in `Textgrid.appendTextgrid` (`h` = the first textgrid's end); neither wrapper does any
+arithmetic on entry times of its own. -/
+theorem append_shift_weakWF (h lo hi : α) (A B : List (Iv α)) (hA : WeakWF A) (hAb : ∀ iv ∈ A, iv.e ≤ h)
+    (hB : WeakWF B) (hB0 : ∀ iv ∈ B, Tm.zero ≤ iv.s) :
+    WeakWF (A ++ (B.map (shiftClip h lo hi)).filterMap (·.2)) := by
+  have hS := edit_weakWF h lo hi B hB
+  refine ⟨?_, List.pairwise_append.2 ⟨hA.2, hS.2, ?_⟩⟩
+  · intro o ho
+    rcases List.mem_append.1 ho with ho | ho
+    · exact hA.1 o ho
+    · exact hS.1 o ho
+  · intro p hp q hq
+    rw [List.filterMap_map] at hq
+    obtain ⟨iv, hiv, hf⟩ := List.mem_filterMap.1 hq
+    exact le_trans (hAb p hp) (shiftClip_start_ge (hB0 iv hiv) hf)
+
+theorem weakWF_append_strip {A B : List (Iv α)} (h : WeakWF (A ++ B)) : WeakWF (A ++ B.map stripIv) := by
+  refine ⟨?_, List.pairwise_append.2 ⟨(List.pairwise_append.1 h.2).1, (weakWF_strip ⟨fun o ho => h.1 o (List.mem_append_right _ ho), (List.pairwise_append.1 h.2).2.1⟩).2, ?_⟩⟩
+  · intro o ho
+    rcases List.mem_append.1 ho with ho | ho
+    · exact h.1 o (List.mem_append_left _ ho)
+    · obtain ⟨iv, hiv, rfl⟩ := List.mem_map.1 ho
+      exact h.1 iv (List.mem_append_right _ hiv)
+  · intro p hp q hq
+    obtain ⟨iv, hiv, rfl⟩ := List.mem_map.1 hq
+    exact (List.pairwise_append.1 h.2).2.2 p hp iv hiv
+
+/-- `appendTier`: the only step that can refuse is the shift of the appended tier (a sliver `s < e` with
+`h + e ≤ h + s`); once the shift is accepted, sorting leaves the concatenation as it is and the final constructor
+accepts it: B's entries are placed after A's end -/
+theorem appendTier_refuses_iff (t u : ITier α) (ht : WeakWF t.es) (hts : StrictIn t.es)
+    (htb : ∀ iv ∈ t.es, iv.e ≤ t.hi) (hu : WeakWF u.es) (hu0 : ∀ iv ∈ u.es, Tm.zero ≤ iv.s) :
+    (t.appendTier u = .error .TextgridStateError ↔
+      ∃ o ∈ (u.es.map (shiftClip t.hi u.lo u.hi)).filterMap (·.2), ¬ o.s < o.e) ∧
+    ((∃ r, t.appendTier u = .ok r) ↔ StrictIn ((u.es.map (shiftClip t.hi u.lo u.hi)).filterMap (·.2))) ∧
+    (∀ r, t.appendTier u = .ok r →
+      r.es = (t.es ++ ((u.es.map (shiftClip t.hi u.lo u.hi)).filterMap (·.2)).map stripIv).map stripIv) := by
+  have hrep : ¬ (Report.silence = .error ∧ (u.es.map (shiftClip t.hi u.lo u.hi)).any (·.1)) := fun h => by cases h.1
+  have hedit := editTimestamps_refuses_iff u t.hi .silence hu hrep
+  by_cases hst : StrictIn ((u.es.map (shiftClip t.hi u.lo u.hi)).filterMap (·.2))
+  · -- the shift is accepted
+    have hw := edit_weakWF t.hi u.lo u.hi u.es hu
+    obtain ⟨u', hu', hes, _⟩ : ∃ u', u.editTimestamps t.hi .silence = .ok u' ∧
+        u'.es = ((u.es.map (shiftClip t.hi u.lo u.hi)).filterMap (·.2)).map stripIv ∧ u'.name = u.name := by
+      unfold ITier.editTimestamps
+      simp only [hrep, if_false]
+      exact mkITier_ok_of_strict u.name _ _ _ hw hst
+    have hcat := weakWF_append_strip (append_shift_weakWF t.hi u.lo u.hi t.es u.es ht htb hu hu0)
+    have hcs : StrictIn (t.es ++ ((u.es.map (shiftClip t.hi u.lo u.hi)).filterMap (·.2)).map stripIv) := by
+      intro o ho
+      rcases List.mem_append.1 ho with ho | ho
+      · exact hts o ho
+      · exact strictIn_strip.2 hst o ho
+    obtain ⟨r, hr, hres, _⟩ := mkITier_ok_of_strict t.name _ t.lo (t.hi + u.hi) hcat hcs
+    have happ : t.appendTier u = .ok r := by
+      unfold ITier.appendTier
+      rw [hu']
+      simp only [bind, Except.bind, ITier.new, Option.getD_some, Option.getD_none, hes,
+        sortIvs_of_weakWF _ hcat hcs]
+      exact hr
+    refine ⟨⟨fun he => ?_, fun ⟨o, ho, hn⟩ => absurd (hst o ho) hn⟩, ⟨fun _ => hst, fun _ => ⟨r, happ⟩⟩, ?_⟩
+    · rw [happ] at he; cases he
+    · intro r' hr'
+      rw [happ] at hr'; cases hr'; exact hres
+  · have hc : ∃ o ∈ (u.es.map (shiftClip t.hi u.lo u.hi)).filterMap (·.2), ¬ o.s < o.e :=
+      Classical.byContradiction fun hn =>
+        hst (fun x hx => Classical.byContradiction fun h' => hn ⟨x, hx, h'⟩)
+    have herr : t.appendTier u = .error .TextgridStateError := by
+      unfold ITier.appendTier
+      rw [hedit.1.2 hc]
+      rfl
+    refine ⟨⟨fun _ => hc, fun _ => herr⟩, ⟨fun ⟨r, hr⟩ => ?_, fun h => absurd h hst⟩, ?_⟩
+    · rw [herr] at hr; cases hr
+    · intro r hr; rw [herr] at hr; cases hr
+
+/-- **no overlap from rounding — appendTier**.  For ANY arithmetic satisfying the laws: if A's entries do not overlap, have
+positive length and end by A's end, and B's entries do not overlap, have positive length and do not start before
+zero, then the concatenated list has no overlap and no reversed interval, B's entries lie at or after A's end, and
+`appendTier` succeeds unless a sliver of B collapsed under the shift (`h + e ≤ h + s` although `s < e`) — then
+`TextgridStateError`. -/
+theorem no_overlap_from_rounding_appendTier (t u : ITier α) (ht : WeakWF t.es) (hts : StrictIn t.es)
+    (htb : ∀ iv ∈ t.es, iv.e ≤ t.hi) (hu : WeakWF u.es) (hus : StrictIn u.es) (hu0 : ∀ iv ∈ u.es, Tm.zero ≤ iv.s) :
+    WeakWF (t.es ++ (u.es.map (shiftClip t.hi u.lo u.hi)).filterMap (·.2)) ∧
+    (∀ o ∈ (u.es.map (shiftClip t.hi u.lo u.hi)).filterMap (·.2), t.hi ≤ o.s) ∧
+    ((∃ r, t.appendTier u = .ok r) ∨
+     (t.appendTier u = .error .TextgridStateError ∧
+      ∃ iv ∈ u.es, iv.s < iv.e ∧ t.hi + iv.e ≤ t.hi + iv.s)) := by
+  refine ⟨append_shift_weakWF t.hi u.lo u.hi t.es u.es ht htb hu hu0, ?_, ?_⟩
+  · intro o ho
+    rw [List.filterMap_map] at ho
+    obtain ⟨iv, hiv, hf⟩ := List.mem_filterMap.1 ho
+    exact shiftClip_start_ge (hu0 iv hiv) hf
+  · have hr := appendTier_refuses_iff t u ht hts htb hu hu0
+    by_cases hst : StrictIn ((u.es.map (shiftClip t.hi u.lo u.hi)).filterMap (·.2))
+    · exact .inl (hr.2.1.2 hst)
+    · right
+      have hc : ∃ o ∈ (u.es.map (shiftClip t.hi u.lo u.hi)).filterMap (·.2), ¬ o.s < o.e :=
+        Classical.byContradiction fun hn =>
+          hst (fun x hx => Classical.byContradiction fun h' => hn ⟨x, hx, h'⟩)
+      obtain ⟨x, hx, hxc⟩ := hc
+      obtain ⟨iv, hiv, h1, _, h3⟩ := edit_collapse t.hi u.lo u.hi u.es hus x hx hxc
+      exact ⟨hr.1.2 ⟨x, hx, hxc⟩, iv, hiv, h1, h3⟩
+
+/-- `PointTier.appendTier`: every point of the shifted tier B lies at or after A's end, hence after every point of A:
+rounding cannot move a point of B before a point of A (and `pedit_sorted`: it cannot swap two points of B) -/
+theorem pappendTier_cross (t u u' : PTier α) (htb : ∀ p ∈ t.ps, p.t ≤ t.hi) (hu0 : ∀ p ∈ u.ps, Tm.zero ≤ p.t)
+    (h : u.editTimestamps t.hi .silence = .ok u') :
+    (∀ q ∈ u'.ps, t.hi ≤ q.t) ∧ ∀ p ∈ t.ps, ∀ q ∈ u'.ps, p.t ≤ q.t := by
+  have h1 : ∀ q ∈ u'.ps, t.hi ≤ q.t := by
+    rw [peditTimestamps_eq] at h
+    have hrep : ¬ (Report.silence = .error ∧
+        (u.ps.map fun p => (p.t + t.hi, p.l)).any (fun x => decide (x.1 < u.lo) || decide (u.hi < x.1))) :=
+      fun h => by cases h.1
+    simp only [hrep, if_false] at h
+    unfold mkPTier at h
+    dsimp only at h
+    split at h
+    · cases h
+      intro q hq
+      have hq' := (List.mergeSort_perm _ _).mem_iff.1 hq
+      obtain ⟨q0, hq0, rfl⟩ := List.mem_map.1 hq'
+      unfold peditList at hq0
+      rw [List.filterMap_map] at hq0
+      obtain ⟨p, hp, hf⟩ := List.mem_filterMap.1 hq0
+      simp only [Function.comp] at hf
+      split at hf
+      · cases hf
+      · cases hf
+        exact le_trans (le_add_of_nonneg t.hi (hu0 p hp)) (add_comm_le _ _)
+    · cases h
+  exact ⟨h1, fun p hp q hq => le_trans (htb p hp) (h1 q hq)⟩
+
+end Generic2
+
 /-! ## the characterisation is tight: under the laws a collapse (and hence a refusal) really can happen
 
 In the toy format `1 + 6 = 7 ↦ 8 = 2 + 6`: the entry `⟨1, 2⟩` shifted by `6` collapses to `⟨8, 8⟩`, and the
@@ -1174,6 +1490,17 @@ theorem toy_insertSpace_collapse :
 the right-hand remainder is not strictly positive and is dropped -/
 theorem toy_split_remainder_dropped :
     spaceOne (Toy.of 1) (Toy.of 6) .split ⟨Toy.of 0, Toy.of 2, "a"⟩ = some [⟨Toy.of 0, Toy.of 1, "a"⟩] := by decide
+
+/-- morph: the duration `1` is absorbed by the new start `8` (`8 + 1 = 9 ↦ 8`): the re-timed entry collapses and the
+constructor refuses -/
+def toyMorphSrc : ITier Toy := ⟨"T", [⟨Toy.of 8, Toy.of 10, "a"⟩], Toy.of 0, Toy.of 10⟩
+def toyMorphTgt : ITier Toy := ⟨"U", [⟨Toy.of 0, Toy.of 1, "a"⟩], Toy.of 0, Toy.of 10⟩
+
+theorem toy_morph_collapse :
+    toyMorphSrc.morph toyMorphTgt (fun _ => true) = .error .TextgridStateError :=
+  (morph_refuses_iff (fun _ => true) toyMorphSrc toyMorphTgt rfl (by simp [toyMorphSrc])
+    (by refine ⟨?_, ?_⟩ <;> simp [toyMorphSrc] <;> decide) (by simp [toyMorphTgt]; decide)).1.2
+    ⟨⟨Toy.of 8, Toy.of 8, "a"⟩, by decide, by decide⟩
 
 end LayerR
 
